@@ -16,7 +16,7 @@ def reexec_if_needed():
 def main():
     reexec_if_needed()
     sys.path.insert(0, HERE)
-    sys.path.insert(0, "/repo/src")
+    sys.path.insert(0, os.path.join(os.environ.get("VERIF_REPO", "/repo"), "src"))
     import torch
 
     torch.set_num_threads(1)
